@@ -63,9 +63,9 @@ def parseSub (fuel : Nat) (j : Json) : E Sub := do
   if (← kind j) = "slice" then
     let st ← parseIdx fuel (← j.getObjVal? "step")
     match st with
-    | .lit 1 =>
-      pure (.range (← parseOptIdx fuel (← j.getObjVal? "start")) (← parseOptIdx fuel (← j.getObjVal? "stop")))
-    | _ => .error "stepped-subscript"
+    | .lit s =>
+      pure (.range (← parseOptIdx fuel (← j.getObjVal? "start")) (← parseOptIdx fuel (← j.getObjVal? "stop")) s)
+    | _ => .error "subscript-step-not-literal"
   else pure (.at (← parseIdx fuel j))
 
 def elemOf : String → Option Elem
